@@ -24,3 +24,12 @@ Proof.
     + replace (Z.to_nat (n - MAX_CLIENT_BUF)) with O by lia. reflexivity.
     + symmetry. apply Z.ltb_ge. lia.
 Qed.
+
+(* the same for the device buffers of Model/Device.v / Model/Script.v (dev->to, dev->from: `lastn (Z.to_nat MAX_DEV_BUF) (old ++ new)`) *)
+Lemma lastn_is_fifo_write cap (q bs : text) : 0 <= cap -> lastn (Z.to_nat cap) (q ++ bs) = fifo_write cap q bs.
+Proof.
+  intros Hc. unfold fifo_write, qlast, qskip, qlen, lastn. f_equal.
+  destruct (Z.le_gt_cases cap (Z.of_nat (length (q ++ bs)))) as [H|H].
+  - rewrite <- (Z2Nat.id cap) at 2 by lia. rewrite <- Nat2Z.inj_sub by (apply Nat2Z.inj_le; rewrite Z2Nat.id; lia). now rewrite Nat2Z.id.
+  - replace (Z.to_nat (Z.of_nat (length (q ++ bs)) - cap)) with O by lia. lia.
+Qed.
